@@ -14,7 +14,7 @@ from symx import core, patch
 from symx.fs import SymFS
 
 
-def run_taster(mods, ref, corrs, nofail, ctx, coords=False, cli=False):
+def run_taster(mods, ref, corrs, nofail, ctx, coords=False, cli=False, verbose=None):
     Taster = mods['amr_kitchen.taste.taste'].Taster
     fs = SymFS()
     ref.write_symfs(fs, '/work/plt')
@@ -42,7 +42,7 @@ def run_taster(mods, ref, corrs, nofail, ctx, coords=False, cli=False):
                     sys.argv = old_argv
                 ok = True
             else:
-                t = Taster('plt', nofail=nofail, boxes_coordinates=coords)
+                t = Taster('plt', nofail=nofail, boxes_coordinates=coords, **({} if verbose is None else {'verbose': verbose}))
                 ok = bool(t)
         except SystemExit as e:
             if e.code not in (None, 0):
@@ -80,15 +80,17 @@ def judge(outcome, nofail):
     return 'reports the plotfile %s without raising in failing mode' % outcome
 
 
-def explore_corr(mods, ref, corrs, res, viol, coords=False, label=None, both_modes=True, cli=False):
+def explore_corr(mods, ref, corrs, res, viol, coords=False, label=None, both_modes=True, cli=False, verbose=None):
     label = label or ' + '.join(c.label for c in corrs)
+    if verbose is not None:
+        label = 'verbose=%r: %s' % (verbose, label)
     if cli:
         label = '`taste plt%s` on: %s' % (' --box_coords' if coords else '', label)
     cls = '+'.join(sorted(set(c.cls for c in corrs)))
     for nofail in ((False,) if cli else ((True, False) if both_modes else (True,))):
         def path(ctx, nofail=nofail):
             obl = Obl(ctx)
-            outcome, detail, _ = run_taster(mods, ref, corrs, nofail, ctx, coords, cli=cli)
+            outcome, detail, _ = run_taster(mods, ref, corrs, nofail, ctx, coords, cli=cli, verbose=verbose)
             obl.total += 1
             bad = judge(outcome, nofail)
             if bad is None:
@@ -104,7 +106,7 @@ def explore_corr(mods, ref, corrs, res, viol, coords=False, label=None, both_mod
             if obl.failed and not ctx.flags:
                 sig = 'C04/%s%s/%s' % ('cli/' if cli else '', cls, 'accepted' if 'good' in obl.failed[0][0] else ('raises-nofail' if 'raises in non' in obl.failed[0][0] else 'no-raise-failmode'))
                 if sig not in viol:
-                    viol[sig] = {'signature': sig, 'what': obl.failed[0][0], 'corrs': corrs, 'nofail': nofail, 'coords': coords, 'cli': cli,
+                    viol[sig] = {'signature': sig, 'what': obl.failed[0][0], 'corrs': corrs, 'nofail': nofail, 'coords': coords, 'cli': cli, 'verbose': verbose,
                                  'model': obl.failed[0][1], 'pc': ctx}
     return
 
@@ -124,6 +126,16 @@ def run_case(case):
     ccs = corrupt.coord_corruptions(ref, tier=tier)
     for c in ccs:
         explore_corr(mods, ref, [c], res, viol, coords=True)
+        n += 1
+    # verbosity must not decide what is checked: two corruptions of every class silently (verbose=0) and chattily (verbose=2)
+    per_cls = {}
+    for c in singles:
+        per_cls.setdefault(c.cls, []).append(c)
+    for cls_, cl in sorted(per_cls.items()):
+        for j, c in enumerate([cl[0], cl[-1]] if len(cl) > 1 else cl):
+            explore_corr(mods, ref, [c], res, viol, both_modes=(j == 0), verbose=0)
+            n += 1
+        explore_corr(mods, ref, [cl[len(cl) // 2]], res, viol, both_modes=False, verbose=2)
         n += 1
     # the command line in failing mode: one corruption of every class, and the coordinate corruptions with --box_coords
     seen_cls = set()
@@ -195,8 +207,8 @@ def make_replay(ref, v, pid):
     run = ("from amr_kitchen.taste.taste import Taster\nimport contextlib, io\n"
            "RESULT = None\n"
            "with contextlib.redirect_stdout(io.StringIO()):\n"
-           "    t = Taster(os.path.join(IN, 'plt'), nofail=%r, boxes_coordinates=%r)\n"
-           "RESULT = 1.0 if bool(t) else 0.0\n" % (v['nofail'], v.get('coords', False)))
+           "    t = Taster(os.path.join(IN, 'plt'), nofail=%r, boxes_coordinates=%r%s)\n"
+           "RESULT = 1.0 if bool(t) else 0.0\n" % (v['nofail'], v.get('coords', False), '' if v.get('verbose') is None else ', verbose=%r' % v['verbose']))
     if v.get('cli'):
         run = ("import sys, contextlib, io\nfrom amr_kitchen.taste import cli\nsys.argv = ['taste', os.path.join(IN, 'plt')] + %r\nRESULT = None\n"
                "with contextlib.redirect_stdout(io.StringIO()):\n    cli.main()\nRESULT = 1.0\n" % (['--box_coords'] if v.get('coords') else [],))
